@@ -361,7 +361,7 @@ def run(ctx) -> None:
             await run_one(ctx, schedule, ("pairing", "connection", "pipelined", "connection", "pipelined")[idx % 5], idx)
         ctx.exhaustive_parts[f"all schedules of depth {depth} starting with R"] = True
         rng = ctx.rng("C08.random")
-        for k in range(ctx.pick(4000, 60000) // ctx.nshards):
+        for k in range(ctx.pick(4000, 300000) // ctx.nshards):
             n = rng.randint(6, 30)
             schedule = "R" + "".join(rng.choice("RRRAAPHEFGCTXUZK") for _ in range(n))
             await run_one(ctx, schedule, rng.choice(["connection", "pipelined", "pipelined", "pairing"]), ("rand", ctx.shard, k))
